@@ -143,8 +143,9 @@ static OrcProgram *gen_build (ProgSpec *ps)
   for (i = 0; i < ps->nvars; i++) {
     PVar *v = &ps->vars[i];
     switch (v->kind) {
-      case VK_DEST: v->orcvar = orc_program_add_destination_full (p, v->size, v->name, NULL, v->align); break;
-      case VK_SRC: v->orcvar = orc_program_add_source_full (p, v->size, v->name, NULL, v->align); break;
+      /* declared alignment through the setter, so that it does not pass through the same helper the bytecode decoder uses */
+      case VK_DEST: v->orcvar = orc_program_add_destination (p, v->size, v->name); if (v->align) orc_program_set_var_alignment (p, v->orcvar, v->align); break;
+      case VK_SRC: v->orcvar = orc_program_add_source (p, v->size, v->name); if (v->align) orc_program_set_var_alignment (p, v->orcvar, v->align); break;
       case VK_ACC: v->orcvar = orc_program_add_accumulator (p, v->size, v->name); break;
       case VK_CONST: v->orcvar = orc_program_add_constant_int64 (p, v->size, (orc_int64) v->value, v->name); break;
       case VK_PARAM:
@@ -176,12 +177,14 @@ typedef struct {
   int crlf, tabs, spaces_after_comma, comments, blank_lines, hex, inline_consts;
 } GenPrintStyle;
 
+static int gen_print_no_l;      /* 8-byte literals without the L suffix */
 static void gen_print_value (VhBuf *b, const PVar *v, int hex)
 {
   /* decimal (signed, fits the parser's expectations) or hex spelling of the same bit pattern */
   if (v->size == 8) {
-    if (hex) vh_buf_printf (b, "0x%llxL", (unsigned long long) v->value);
-    else vh_buf_printf (b, "%lldL", (long long) v->value);
+    /* the L suffix is optional when the size is known from the declaration / the opcode */
+    if (hex) vh_buf_printf (b, "0x%llx%s", (unsigned long long) v->value, gen_print_no_l ? "" : "L");
+    else vh_buf_printf (b, "%lld%s", (long long) v->value, gen_print_no_l ? "" : "L");
   } else {
     uint32_t u = (uint32_t) v->value;
     if (hex) vh_buf_printf (b, "0x%x", u);
